@@ -20,7 +20,7 @@ import (
 // norm renders a value in normal form with loads and parentheses removed, so that
 // `*(*recv.session).NICInfo` and `recv.session.NICInfo` read the same: "recv.session.NICInfo".
 func norm(v ssa.Value) string {
-	s := absint.ExprString(v, 7)
+	s := absint.ExprString(v, 10)
 	s = strings.ReplaceAll(s, "*", "")
 	return s
 }
@@ -33,19 +33,27 @@ type Guard struct {
 	Text   string // normal form of the condition with polarity folded in ("!" prefix when false)
 }
 
-// guardsOf returns the conditions the block of instr is transitively control dependent on.
-// Negations are stripped into the polarity.
+// guardsOf returns the dominating conditions of instr: for every dominator D of instr's block
+// (including the block itself) that has a single predecessor P ending in an If, the condition
+// of P with the polarity of the edge P->D. Whenever control reaches instr, the most recent
+// evaluation of each such condition had that polarity. (Blocks reached from both arms of a
+// short-circuit || contribute no guard, as they should.) Negations are folded into the polarity.
 func guardsOf(instr ssa.Instruction) []Guard {
-	b := instr.Block()
-	cfg := core.CFG(b.Parent())
 	var out []Guard
-	for _, d := range cfg.TransitiveControlDeps(b) {
-		iff, ok := d.Branch.Instrs[len(d.Branch.Instrs)-1].(*ssa.If)
+	for d := instr.Block(); d != nil; d = d.Idom() {
+		if len(d.Preds) != 1 {
+			continue
+		}
+		p := d.Preds[0]
+		iff, ok := p.Instrs[len(p.Instrs)-1].(*ssa.If)
 		if !ok {
 			continue
 		}
+		if p.Succs[0] == p.Succs[1] {
+			continue
+		}
 		cond := iff.Cond
-		pol := d.Succ == 0
+		pol := p.Succs[0] == d
 		for {
 			if u, ok := cond.(*ssa.UnOp); ok && u.Op == token.NOT {
 				cond = u.X
@@ -54,13 +62,12 @@ func guardsOf(instr ssa.Instruction) []Guard {
 			}
 			break
 		}
-		// x != y with polarity p  ==  x == y with polarity !p
 		txt := norm(cond)
 		if bo, ok := cond.(*ssa.BinOp); ok && bo.Op == token.NEQ {
 			txt = "(" + norm(bo.X) + "==" + norm(bo.Y) + ")"
 			pol = !pol
 		}
-		g := Guard{Cond: cond, Pol: pol, Branch: d.Branch, Text: txt}
+		g := Guard{Cond: cond, Pol: pol, Branch: p, Text: txt}
 		if !pol {
 			g.Text = "!" + txt
 		}
